@@ -8,7 +8,8 @@ PROC_TIMEOUT = 900
 # Payload:  "<max> <discov01> <mscript> <dscript> <ops>"
 #   reply   := st.ty.src.cc.mc.fill.len.fr   (status, response type (9 = NULL response), source uid,
 #              command class, message count, data = fill x len (the mock prepends the id of the request
-#              it answers), number of frames)
+#              it answers unless len = 0: then the response has no parameter data), number of frames;
+#              the response's PID is 100 + fill mod 7)
 #   mscript := '-' | item(,item)*   item := 'L' (answer later) | 'Y'reply (answer inside SendRDMRequest)
 #              -- what the underlying controller does with its k-th SendRDMRequest call
 #   dscript := '-' | [01]*          1 = discovery run k completes inside RunFull/IncrementalDiscovery
@@ -20,7 +21,7 @@ PROC_TIMEOUT = 900
 #   The controller is destroyed after the last op; the completion callbacks the destructor runs are live
 #   (S/P/R are executed; F/I/D/E are not: the derived part of the object is gone, the underlying controller does
 #   not answer a dying controller).
-# Result keys: comp = every completion in order as id:kind:status:response-type:data (property level: exactly
+# Result keys: comp = every completion in order as id:kind:status:type.src.cc.mc.pid:data (property level: exactly
 #   once, order, own reply, concatenation), t = per-top-level-op trace of calls reaching the underlying controller (S<id>, X<full>) and of
 #   user callbacks (C<id>:<kind>:<status>:<response>:f<frames>, K<did>@<run>), i = internal flags after
 #   every op, and the property verdicts computed independently by the harness from what the mock and the
@@ -132,7 +133,7 @@ def rand_dscript(rng, n):
     return ''.join('1' if rng.random() < p else '0' for _ in range(n))
 
 
-ALPHABET = ['P', 'R', 'S()', 'S(S())', 'i', 'D%s;' % rp(0, 0, fill=6), 'D%s;' % rp(0, 3, fill=7),
+ALPHABET = ['P', 'R', 'S()', 'S(S())', 'i', 'D%s;' % rp(0, 0, mc=2, fill=9, ln=0), 'D%s;' % rp(0, 0, fill=6), 'D%s;' % rp(0, 3, fill=7),
             'D%s;' % rp(3, 9), 'F()', 'I(S())', 'E']
 SCRIPTS = [('-', '-'), ('Y%s' % rp(0, 0), '1'), ('L,Y%s,Y%s' % (rp(0, 3, fill=8), rp(0, 0, fill=9)), '01'),
            ('Y%s,L,Y%s' % (rp(0, 3, fill=8), rp(3, 9)), '10')]
